@@ -1319,6 +1319,10 @@ func (st *Runtime) evalCommandExpression(node *CommandNode) (reflect.Value, bool
 			}
 			return ret, false
 		}
+		if len(node.Exprs) == 0 {
+			// called with an empty argument list: x()
+			node.BaseExpr.errorf("command %q is called but is %s, not a function", node.BaseExpr, term.Type())
+		}
 		node.Exprs[0].errorf("command %q has arguments but is %s, not a function", node.Exprs[0], term.Type())
 	}
 	return term, false
